@@ -13,7 +13,7 @@ def tables_module(tabname, modname='CoreTables'):
     doc = {'names': [{'id': n, 'iso': [ord(c) for c in m['iso']], 'rr': [ord(c) for c in m['rr']],
                       'jol': [ord(c) for c in m['jol']], 'udf': [ord(c) for c in m['udf']]}
                      for n, m in sorted(tab.names.items())],
-           'blobs': [{'id': b, 'len': len(tab.blobdata[b])} for b in sorted(tab.blobs)],
+           'blobs': [{'id': b, 'len': tab.blob_len(b)} for b in sorted(tab.blobs)],
            'targets': sorted(tab.targets)}
     return replay.tables_module(doc).replace('MODULE TraceTables', 'MODULE ' + modname)
 
